@@ -9,7 +9,7 @@ CHECKERS = ['C05', 'C03']
 def run(chk: Check):
     mgr_check.run_property(
         chk, "C05", "Props.C05", THEOREMS,
-        model_profiles={'routing': 200, 'faults': 160, 'periodic': 80},
+        model_profiles={'routing': 200, 'faults': 160, 'periodic': 80, 'nested': 100},
         oracle_flavors={'routing': 160, 'drops': 160, 'stats': 60},
         checkers=CHECKERS,
         assumptions=['TCP preserves order per connection; a failing sendall writes nothing (all-or-nothing per call in the harness)'])
